@@ -234,14 +234,21 @@ def case_literal(res, ff):
     with_ = coresult(res.get("with"))
     ded = coresult(res.get("deduced") or {"raised": "NotRun"})[len("(Some "):-1]
     body = ("{| c_dom := %s; c_nums := %s; c_repr := %s; c_objs := %s; c_agents := %s; c_first := %s; c_steps := %s; "
-            "c_export := %s; c_source := %s; c_with := %s; c_deduced := %s |}") % (
+            "c_export := %s; c_source := %s; c_with := %s; c_deduced := %s; c_strict := %s |}") % (
         dom, nums, reprs, cpairs(res["objects"]), agents, first, steps, cobs_val(res.get("export"), cstr),
-        "(Some %s)" % cstr(res["source"]) if res.get("source") else "None", with_, ded)
+        "(Some %s)" % cstr(res["source"]) if res.get("source") else "None", with_, ded,
+        cobs_val(res.get("strict"), lambda n: "%d%%nat" % n))
     return L.wrap(body)
 
 
-def dump_has_repeat(d):
-    return any(len(set(vars_of(f["sig"], f["rep"]))) < len(vars_of(f["sig"], f["rep"])) for _, f in d["fluents"])
+def dump_has_repeat(d, vocab=None):
+    """D07: a fluent with a repeated argument, or one an effect has already collapsed (fewer arguments than declared)"""
+    arity = {n: len(sg) for n, sg in (vocab or {}).get("funcs", [])}
+    for _, f in d["fluents"]:
+        vs = vars_of(f["sig"], f["rep"])
+        if len(set(vs)) < len(vs) or (f["name"] in arity and arity[f["name"]] != len(vs)):
+            return True
+    return False
 
 
 # ---------------------------------------------------------------- run
@@ -309,7 +316,7 @@ def run(args):
                 x = unhex(f["val"])
                 stats["negative_values"] += 1 if x < 0 else 0
                 stats["fractional_values"] += 1 if math.isfinite(x) and x != int(x) else 0
-            if dump_has_repeat(d):
+            if dump_has_repeat(d, r.get("vocab")):
                 stats["repeated_argument_fluents"] += 1
                 rept = True
             if i > 0 and json.dumps(d, sort_keys=True) == json.dumps(dict(dumps[i - 1], init=d["init"]), sort_keys=True):
